@@ -4,6 +4,7 @@ import (
 	"fmt"
 	"os"
 	"runtime"
+	"runtime/metrics"
 	"strconv"
 	"strings"
 	"sync/atomic"
@@ -42,6 +43,20 @@ func startRSSMonitor() {
 		}
 	}()
 }
+
+// heapAllocated returns the cumulative number of bytes allocated on the heap (cheap: no stop-the-world).
+var allocSample = []metrics.Sample{{Name: "/gc/heap/allocs:bytes"}}
+
+func heapAllocated() uint64 {
+	metrics.Read(allocSample)
+	if allocSample[0].Value.Kind() == metrics.KindUint64 {
+		return allocSample[0].Value.Uint64()
+	}
+	return 0
+}
+
+// per-call allocation cap: 256 MiB plus 4 KiB per input byte
+const allocCapBase = 256 << 20
 
 // ---------------------------------------------------------------------------
 // goroutine-leak monitor
@@ -120,6 +135,10 @@ func randFullConfig(r *Rng) (g.SimulatorConfig, asm.Config) {
 		if ac.Length > ac.CoreSize {
 			ac.Length = ac.CoreSize
 		}
+	} else if r.Chance(1, 12) {
+		// the largest lengths Validate accepts: the cost of a call must follow the input, not the configuration
+		ac.Length = []int{ac.CoreSize, ac.CoreSize / 2, ac.CoreSize - 1}[r.Intn(3)]
+		ac.Distance = 0
 	}
 	return gcfg(ac, mode), ac
 }
@@ -155,8 +174,15 @@ func runC05(c *Ctx) {
 		var err error
 		var pm string
 		cpu0 := cpuNow()
+		a0 := heapAllocated()
 		c.Guarded(budget, "C05:compile", cs, func() { wd, err, pm = compile(text, gc) })
 		cpu := cpuNow() - cpu0
+		alloc := heapAllocated() - a0
+		c.Max("max_alloc_mib_per_call", int64(alloc>>20))
+		if alloc > allocCapBase+uint64(len(text))*4096 {
+			c.Violate("C05:allocation-cap", fmt.Sprintf("one CompileWarrior call on %d bytes of input allocated %d MiB (cap: 256 MiB + 4 KiB per input byte)", len(text), alloc>>20), cs)
+			return
+		}
 		c.Inc("calls")
 		c.Inc("class_" + class)
 		c.Max("max_cpu_ms_per_call", cpu.Milliseconds())
@@ -305,6 +331,9 @@ func nearValid(r *Rng, text string, ninstr int, length int) (string, string) {
 		}
 		return strings.Join(out, "\n") + "\n", fmt.Sprintf("entry=len%+d", v-ninstr)
 	case 2: // lines duplicated to exceed the maximum length
+		if length > 2000 {
+			return text, "unchanged" // a program of that size is not a near-valid mutation any more
+		}
 		var body []string
 		for _, l := range lines {
 			t := strings.ToLower(strings.TrimSpace(l))
